@@ -240,7 +240,7 @@ impl Datagrams {
         };
 
         let usize_segment_size = usize::from(u16::from(segment_size));
-        let max_content_len = num_segments * usize_segment_size;
+        let max_content_len = num_segments.saturating_mul(usize_segment_size);
         let contents = self
             .contents
             .split_to(std::cmp::min(max_content_len, self.contents.len()));
